@@ -8,6 +8,9 @@ library defaults) and a list of client-level operations on a few proxies:
                             (how = gen | itr | lst | prop: generator, iterator class, list iterator,
                             exposed property); items = [["y", v] | ["r", e]]  (yield v / raise error e)
   ["next", h]               next() on the h-th client-side stream object
+  ["nextf", h, kind]        next() while the transport fails in the middle of the call: kind = drop_request |
+                            reset_before (the request never reaches the daemon) | drop_reply | reset_after |
+                            cut_reply (the daemon handles it, the answer is lost)
   ["close", h]              .close() on it
   ["release", p]            p._pyroRelease()          (connection ends)
   ["reconnect", p]          p._pyroReconnect()        (connection ends, new connection)
@@ -32,13 +35,15 @@ ASSUMPTIONS = [
     "each daemon operation (get_next_stream_item, close_stream, _clientDisconnect, _housekeeping) is an atomic step; races of the housekeeper thread inside a running get_next_stream_item are not modelled",
     "oneway close_stream calls are joined before the next step (the daemon runs them in a thread of their own)",
     "time is whole seconds on a virtual clock (time.time as seen by Pyro5.server); the clock never reads 0",
-    "a transport failure in the middle of a call (reply lost after the item was taken) is outside this property's histories (C03)",
+    "transport failures are injected in the middle of next() only (request lost / reply lost, then the proxy releases its connection); an item whose reply is lost in transit is gone (at-most-once), and the model says so; stale/delayed replies belong to C03",
     "fewer than 65535 calls per proxy in one history (the client's 16-bit sequence wrap is not modelled)",
 ]
 IMPORTS = "From V Require Import Model.Streams Gen.GenStreams Harness.Cmp Harness.H10."
 T0 = 1000
 ERR_CLASSES = ["ValueError", "KeyError", "ZeroDivisionError", "RuntimeError"]
 BOGUS = 999999
+REQ_LOST = ("drop_request", "reset_before")
+REPLY_LOST = ("drop_reply", "reset_after", "cut_reply")
 
 
 # ---------------------------------------------------------------- implementation runner
@@ -202,6 +207,20 @@ def run_impl(case):
                             resp = ["item", v] if isinstance(v, int) and not isinstance(v, bool) and v >= 0 else ["other:value", 0]
                         except Exception as x:
                             resp = classify(x)
+                    elif k == "nextf":
+                        nreq = sum(1 for e in net.events if e[1] == "request")
+                        net.script([{"kind": op[2]}], skip_handshake=True)
+                        try:
+                            v = next(iters[op[1]])
+                            resp = ["item", v] if isinstance(v, int) and not isinstance(v, bool) and v >= 0 else ["other:value", 0]
+                        except Exception as x:
+                            sent = sum(1 for e in net.events if e[1] == "request") > nreq
+                            if sent and isinstance(x, errors.CommunicationError):
+                                resp = ["commerr", 0]
+                            else:
+                                resp = classify(x)
+                        finally:
+                            net.script([])
                     elif k == "close":
                         try:
                             iters[op[1]].close()
@@ -336,6 +355,12 @@ def oracle(case, obs):
         if tag in ("item", "stop", "raised") and s["state"] == "dead":
             flag("item-after-forget" if tag == "item" else "answer-after-forget",
                  "%s on stream %d answered %s although the server should have forgotten it (%s)" % (what, o, tag, s["why"]))
+        if s.get("uncertain"):
+            if tag == "item" and ["y", val] not in src:
+                flag("wrong-item", "%s on stream %d returned %r which is not in its source at all" % (what, o, val))
+            if tag in ("stop", "raised", "error"):
+                s["state"], s["why"] = "dead", "ended"
+            return
         if tag == "item":
             if n >= len(src) or src[n][0] != "y" or src[n][1] != val:
                 other = [j for j, t in enumerate(streams) if t and j != o and len(t["given"]) < len(t["src"]) and t["src"][len(t["given"])] == ["y", val]]
@@ -391,6 +416,42 @@ def oracle(case, obs):
                 serve(h["o"], pconn[h["p"]], resp, "next()")
                 if tag == "stop":
                     h["done"] = True
+        elif k == "nextf":
+            h = iters[op[1]]
+            if h["done"]:
+                if tag != "stop":
+                    flag("ended-iterator-answers", "next() on a finished/closed client iterator gave %s" % tag)
+            elif pconn[h["p"]] is None:
+                if tag != "closed":
+                    flag("disconnected-iterator-answers", "next() on an iterator whose proxy is disconnected gave %s" % tag)
+            else:
+                s = streams[h["o"]]
+                lost = False
+                if op[2] in REPLY_LOST and s["state"] != "dead":
+                    # the daemon handled the request; its answer was lost on the way
+                    if s["state"] == "maybe":
+                        s["uncertain"] = True
+                    else:
+                        n = len(s["given"])
+                        if n < len(s["src"]) and s["src"][n][0] == "y":
+                            s["given"].append(s["src"][n][1])
+                            lost = True
+                            if s["owner"] is None:
+                                s["owner"], s["linger_since"] = pconn[h["p"]], None
+                        else:
+                            s["state"], s["why"] = "dead", "exhausted or failed (answer lost in transit)"
+                disconnect(pconn[h["p"]])
+                pconn[h["p"]] = None
+                if tag != "commerr":
+                    # the client did not report the failure: whatever it answered instead came over a new connection
+                    if lost:
+                        flag("item-lost-silently", "next() during a transport failure (%s) answered %s without an error although the item the daemon had handed out was lost" % (op[2], tag))
+                    elif tag in ("stop", "closed") :
+                        flag("fault-not-reported", "next() during a transport failure (%s) gave %s instead of a communication error" % (op[2], tag))
+                    if st["conns"]:
+                        serve(h["o"], ensure_conn(h["p"]), resp, "next() (retried)")
+                    if tag == "stop":
+                        h["done"] = True
         elif k == "close":
             h = iters[op[1]]
             if not h["done"] and pconn[h["p"]] is not None:
@@ -465,6 +526,8 @@ def c_op(op):
         return "COpen %s %s" % (cN(op[1]), clist([c_item(i) for i in items]))
     if k in ("next", "close"):
         return "%s %s" % ({"next": "CNext", "close": "CClose"}[k], cN(op[1]))
+    if k == "nextf":
+        return "CNextFault %s %s" % (cN(op[1]), "ReqLost" if op[2] in REQ_LOST else "ReplyLost")
     if k in ("release", "reconnect"):
         return "%s %s" % ({"release": "CRelease", "reconnect": "CReconnect"}[k], cN(op[1]))
     if k in ("rawnext", "rawclose"):
@@ -477,7 +540,7 @@ def c_op(op):
 
 
 RESP = {"opened": "COpened %s", "nostream": "CNoStreaming", "item": "CItem %s", "stop": "CStop", "raised": "CRaised %s",
-        "error": "CError", "closed": "CClosedLocal", "none": "CNone"}
+        "error": "CError", "closed": "CClosedLocal", "none": "CNone", "commerr": "CCommErr None"}
 
 
 def c_resp(r):
@@ -552,7 +615,7 @@ def gen_case(rng, long=False):
         cfg = {"streaming": streaming, "lifetime": lifetime, "linger": linger}
     nprox = rng.choice([1, 2, 2, 3, 4])
     nops = rng.randint(4, 60 if long else 28)
-    ops, nh, ns = [], 0, 0
+    ops, nh, ns, hprox = [], 0, 0, []
     style = rng.choice(["mixed", "mixed", "interleave", "linger", "lifetime", "churn"])
     dts = [0, 1, 1, 2, 3, 5, 10, 31]
     if linger:
@@ -564,35 +627,47 @@ def gen_case(rng, long=False):
         w_open = 0.16 if ns < 6 else 0.04
         if ns == 0 or r < w_open:
             how = rng.choice(["gen", "gen", "itr", "itr", "lst", "prop"])
-            ops.append(["open", rng.randrange(nprox), how, gen_items(rng)])
+            px = rng.randrange(nprox)
+            ops.append(["open", px, how, gen_items(rng)])
             ns += 1
             if streaming:
                 nh += 1
+                hprox.append(px)
             continue
         r = rng.random()
         if style == "interleave":
-            weights = [("next", 60), ("rawnext", 8), ("close", 6), ("release", 4), ("reconnect", 6), ("hk", 6), ("tick", 8), ("rawclose", 2)]
+            weights = [("next", 60), ("nextf", 4), ("rawnext", 8), ("close", 6), ("release", 4), ("reconnect", 6), ("hk", 6), ("tick", 8), ("rawclose", 2)]
         elif style == "linger":
-            weights = [("next", 30), ("rawnext", 10), ("close", 3), ("release", 14), ("reconnect", 14), ("hk", 12), ("tick", 16), ("rawclose", 1)]
+            weights = [("next", 30), ("nextf", 9), ("rawnext", 10), ("close", 3), ("release", 14), ("reconnect", 14), ("hk", 12), ("tick", 16), ("rawclose", 1)]
         elif style == "lifetime":
-            weights = [("next", 40), ("rawnext", 5), ("close", 3), ("release", 4), ("reconnect", 6), ("hk", 20), ("tick", 21), ("rawclose", 1)]
+            weights = [("next", 40), ("nextf", 4), ("rawnext", 5), ("close", 3), ("release", 4), ("reconnect", 6), ("hk", 20), ("tick", 21), ("rawclose", 1)]
         elif style == "churn":
-            weights = [("next", 25), ("rawnext", 10), ("close", 20), ("release", 10), ("reconnect", 10), ("hk", 8), ("tick", 10), ("rawclose", 7)]
+            weights = [("next", 25), ("nextf", 5), ("rawnext", 10), ("close", 20), ("release", 10), ("reconnect", 10), ("hk", 8), ("tick", 10), ("rawclose", 7)]
         else:
-            weights = [("next", 40), ("rawnext", 8), ("close", 8), ("release", 8), ("reconnect", 9), ("hk", 10), ("tick", 14), ("rawclose", 3)]
+            weights = [("next", 40), ("nextf", 6), ("rawnext", 8), ("close", 8), ("release", 8), ("reconnect", 9), ("hk", 10), ("tick", 14), ("rawclose", 3)]
         tot = sum(w for _, w in weights)
         x = rng.random() * tot
         for k, w in weights:
             if x < w:
                 break
             x -= w
-        if k in ("next", "close") and nh == 0:
+        if k in ("next", "close", "nextf") and nh == 0:
             k = "rawnext"
         if k == "next":
             # favour the most recent handles so that streams get drained; sometimes hammer one
             h = rng.randrange(nh) if rng.random() < 0.5 else max(0, nh - 1 - rng.randrange(min(nh, 2)))
             ops.append(["next", h])
             if rng.random() < 0.25:
+                ops.append(["next", h])
+        elif k == "nextf":
+            h = rng.randrange(nh) if rng.random() < 0.5 else nh - 1
+            ops.append(["nextf", h, rng.choice(REQ_LOST + REPLY_LOST)])
+            if rng.random() < 0.7:      # the usual continuation: come back (sooner or later) and go on
+                if rng.random() < 0.6:
+                    ops.append(["tick", rng.choice(dts)])
+                    if rng.random() < 0.6:
+                        ops.append(["hk"])
+                ops.append(["reconnect", hprox[h] if rng.random() < 0.9 else rng.randrange(nprox)])
                 ops.append(["next", h])
         elif k == "close":
             ops.append(["close", rng.randrange(nh)])
@@ -629,10 +704,16 @@ def targeted():
             out.append({"cfg": cfg, "nprox": 2, "ops": [["open", 0, "gen", three], ["next", 0], ["tick", gap], ["hk"], ["next", 0], ["rawnext", 1, 0],
                                                         ["release", 0], ["tick", gap], ["hk"], ["rawnext", 1, 0], ["release", 1], ["tick", gap], ["hk"], ["rawnext", 1, 0]]})
             out.append({"cfg": cfg, "nprox": 2, "ops": [["open", 0, "itr", three], ["release", 0], ["tick", gap], ["rawnext", 1, 0], ["hk"], ["tick", gap], ["hk"], ["rawnext", 1, 0]]})
+        for kind in REQ_LOST + REPLY_LOST:
+            for gap in (0, linger, linger + 1):
+                out.append({"cfg": cfg, "nprox": 1, "ops": [["open", 0, "gen", [["y", 1], ["y", 2], ["y", 3], ["y", 4]]], ["next", 0], ["nextf", 0, kind], ["next", 0],
+                                                            ["tick", gap], ["hk"], ["reconnect", 0], ["next", 0], ["next", 0], ["next", 0], ["next", 0]]})
+            out.append({"cfg": cfg, "nprox": 1, "ops": [["open", 0, "itr", [["y", 1], ["r", 9]]], ["next", 0], ["nextf", 0, kind], ["reconnect", 0], ["next", 0], ["next", 0]]})
+            out.append({"cfg": cfg, "nprox": 1, "ops": [["open", 0, "gen", [["y", 1]]], ["next", 0], ["nextf", 0, kind], ["reconnect", 0], ["next", 0], ["next", 0], ["nextf", 0, kind]]})
         out.append({"cfg": cfg, "nprox": 2, "ops": [["rawnext", 0, -1], ["rawclose", 1, -1], ["open", 0, "gen", three], ["rawclose", 1, 0], ["next", 0]]})
     for c in out:
         if not c["cfg"]["streaming"]:      # no client iterators exist: ask by (non-existent) id instead
-            c["ops"] = [(["rawnext", 0, o[1]] if o[0] == "next" else ["rawclose", 0, o[1]] if o[0] == "close" else o) for o in c["ops"]]
+            c["ops"] = [(["rawnext", 0, o[1]] if o[0] in ("next", "nextf") else ["rawclose", 0, o[1]] if o[0] == "close" else o) for o in c["ops"]]
     out.append({"cfg": "default", "nprox": 1, "ops": [["open", 0, "gen", three], ["next", 0], ["release", 0], ["tick", 30], ["hk"], ["reconnect", 0], ["next", 0],
                                                       ["release", 0], ["tick", 31], ["hk"], ["reconnect", 0], ["next", 0]]})
     out.append({"cfg": "default", "nprox": 1, "ops": [["open", 0, "gen", three], ["tick", 100000], ["hk"], ["next", 0]]})
@@ -685,7 +766,7 @@ def run(ctx, model_ok=True):
     cases = vlib.load_corpus(PROP) + targeted() + gen_cases(ctx)
     execute(ctx, cases, model_ok, res)
     res.rule = ("seeded random client histories (open via generator / iterator class / list iterator / exposed property, next, close, "
-                "release, reconnect, next/close by id from another proxy, housekeeping, clock ticks) over 1-4 proxies and up to ~8 streams, "
+                "next during a transport failure (request lost / reply lost / reset / cut reply), release, reconnect, next/close by id from another proxy, housekeeping, clock ticks) over 1-4 proxies and up to ~8 streams, "
                 "item lists empty/long/raising midway/with repeated values, 12 fixed + random (streaming, lifetime, linger) settings and the "
                 "library defaults; plus targeted histories for each clause of the property; non-trivial = at least one item delivered and "
                 "three different kinds of answer; distinct = distinct case hash")
